@@ -908,6 +908,9 @@ func (w *W) opMerge() string {
 
 // spuriousMatch: is there a node path in either operand, other than p itself,
 // that contains p as a subsequence ending at the path's last element?
+// SpuriousMatch is spuriousMatch for other engines.
+func SpuriousMatch(p []string, trees ...*model.Node) bool { return spuriousMatch(p, trees...) }
+
 func spuriousMatch(p []string, trees ...*model.Node) bool {
 	found := false
 	for _, t := range trees {
